@@ -241,7 +241,22 @@ def make_rows(mod, id_):
         "mixed:stale-if:arg-class-removed": [CallTrace(mod.mixed, {"a": mod.Arg1}, mod.Arg1)],
         "mixed:stale-if:return-class-removed": [CallTrace(mod.mixed, {"a": int}, mod.Ret1)],
     }
-    return {q: [CallTraceRow.from_trace(t) for t in ts] for q, ts in T.items()}
+    out = {q: [CallTraceRow.from_trace(t) for t in ts] for q, ts in T.items()}
+    from monkeytype.encoding import arg_types_to_json
+
+    def with_args(row, args):
+        return CallTraceRow(row.module, row.qualname, arg_types_to_json(args), row.return_type, row.yield_type)
+
+    # decodable rows of one function that disagree on its parameter names: recorded before a parameter was added / under the
+    # names the function has in version B (rows of `renamed` recorded after the edit)
+    out["keep1:other-names"] = [with_args(out["keep1"][0], {"a": int}), with_args(out["keep1"][1], {"a": str, "b": int, "extra": float})]
+    out["renamed:other-names"] = [with_args(out["renamed"][0], {"c": int, "d": str}), with_args(out["renamed"][0], {"c": str})]
+    out["K.keepm:other-names"] = [with_args(out["K.keepm"][0], {"self": mod.K, "a": int, "flag": bool})]
+    # rows of functions that were defined in a local scope when they were traced: never decodable, whatever the module looks like now
+    out["<local-scope>"] = [CallTraceRow(mod.__name__, "keep1.<locals>.inner", out["keep1"][0].arg_types, out["keep1"][0].return_type, None),
+                            CallTraceRow(mod.__name__, "K.keepm.<locals>.cb", out["keep1"][1].arg_types, None, None),
+                            CallTraceRow(mod.__name__, "make.<locals>.Local.method", out["keep1"][0].arg_types, None, out["keep2"][0].yield_type)]
+    return out
 
 
 def write_db(path, rows):
@@ -327,6 +342,13 @@ def work(p):
         seq = []
         for q in case["valid"]:
             seq += [(r, False, None) for r in rows[q]]
+            if rng.random() < 0.6:
+                extra = rows.get(q + ":other-names", [])
+                seq += [(r, False, None) for r in extra]
+                res.count("rows_disagreeing_on_parameter_names", len(extra))
+        if rng.random() < 0.5:
+            seq += [(r, True, "local-scope-qualname") for r in rows["<local-scope>"][:rng.randint(1, 3)]]
+            res.count("cases_with_local_scope_rows")
             for kind in MUTATIONS:
                 extra = rows.get(f"{q}:stale-if:{kind}")
                 if extra:
@@ -439,6 +461,8 @@ def run(ck):
     ck.need("nothing_decodable_cases", 3)
     ck.need("target_removed_cases", 2)
     ck.need("verbose_warnings_seen", 30)
+    ck.need("rows_disagreeing_on_parameter_names", 20)
+    ck.need("cases_with_local_scope_rows", 10)
     return ck.finish(
         rule="stores mixing valid rows of a fixture module with stale rows of every kind (function removed / now an int / a class / local / "
         "a settable property, argument / return / yield class removed, class name rebound to a non-type, module / submodule / nested class "
